@@ -110,18 +110,11 @@ func (fsm *FSM) GetFSMInstance(dkgRoundID string, createIfMissing bool) (*state_
 		if !createIfMissing {
 			return nil, fmt.Errorf("no FSM instance found for the given dkgID %s", dkgRoundID)
 		}
+		// The new instance is not saved here: whoever asked for it saves it after a successful transition.
+		// Otherwise any rejected message would leave an idle round with the id it carries in the state.
 		fsmInstance, err = state_machines.Create(dkgRoundID)
 		if err != nil {
 			return nil, fmt.Errorf("failed to create FSM instance: %w", err)
-		}
-
-		bz, err := fsmInstance.Dump()
-		if err != nil {
-			return nil, fmt.Errorf("failed to Dump FSM instance: %w", err)
-		}
-
-		if err := fsm.SaveFSM(dkgRoundID, bz); err != nil {
-			return nil, fmt.Errorf("failed to SaveFSM: %w", err)
 		}
 	}
 
